@@ -747,6 +747,7 @@ type FuncContract struct {
 	Exclusive bool     // runs while the receiver is not shared between goroutines (constructors, the sequential phase): guard obligations do not apply
 	OwnWrites []string // own_writes D1, D2: the function's OWN store instructions (callees excluded) touch only these families (syntactic scan)
 	HasOwnW   bool
+	SelectDone string  // select_done G: a non-blocking select with one receive case takes that case iff ghost G holds (G = "the context is cancelled")
 	AssumePre []string // callees whose preconditions are ASSUMED at this function's call sites (listed as an assumption in the evidence)
 	Abstracts []string // abstractions of the encoding this contract was written with (e.g. "select")
 	UFArith   bool     // symbolic float products / quotients are uninterpreted (fmulU / fdivU)
@@ -781,7 +782,7 @@ var clauseKeywords = map[string]bool{
 	"invariant": true, "trusted": true, "inline": true, "mode": true, "params": true,
 	"maypanic": true, "fdef": true, "pure": true, "noalloc": true, "set": true, "reason": true,
 	"uses": true, "lemma": true, "exit": true, "leave": true, "cut": true, "focus": true, "free_ensures": true, "ensures_local": true,
-	"atomic": true, "exclusive": true, "abstracts": true, "assume_pre": true, "own_writes": true, "ufarith": true, "smtlemma": true, "induct": true, "vars": true, "claim": true, "pattern": true, "smtaxiom": true, "smtdef": true, "guarded": true, "assert": true,
+	"atomic": true, "exclusive": true, "abstracts": true, "select_done": true, "assume_pre": true, "own_writes": true, "ufarith": true, "smtlemma": true, "induct": true, "vars": true, "claim": true, "pattern": true, "smtaxiom": true, "smtdef": true, "guarded": true, "assert": true,
 }
 
 type rawLine struct {
@@ -948,6 +949,8 @@ func ParseSpecFile(path, pkgPath string) (*SpecFile, error) {
 						cur.OwnWrites = append(cur.OwnWrites, a)
 					}
 				}
+			case "select_done":
+				cur.SelectDone = strings.TrimSpace(rest)
 			case "assume_pre":
 				for _, a := range strings.Split(rest, ",") {
 					if a = strings.TrimSpace(a); a != "" {
